@@ -593,6 +593,40 @@ def raise_from_none() -> str:
     except ValueError as e:
         return "cause=" + type(e.__cause__).__name__ + " suppress=" + str(e.__suppress_context__) + " context=" + type(e.__context__).__name__
 
+class LBox:
+    def __init__(self, n: int) -> None:
+        self.n = n
+    def __len__(self) -> int:
+        return self.n
+
+def opt_len_truth(b: Optional[LBox]) -> str:
+    if b:
+        return "truthy"
+    return "falsy"
+
+def range_empty_keeps(n: int) -> int:
+    i = 99
+    for i in range(n):
+        pass
+    return i
+
+@trait
+class TBool:
+    def __bool__(self) -> bool:
+        return False
+    def __len__(self) -> int:
+        return 0
+
+class TBase:
+    def __init__(self) -> None:
+        self.x = 1
+
+class TImpl(TBase, TBool):
+    pass
+
+def bool_via_base(o: TBase) -> bool:
+    return bool(o)
+
 def ord_at(s: str, i: int) -> int:
     return ord(s[i])
 
@@ -856,10 +890,13 @@ PRELUDE = ("from typing import List, Dict, Optional, Union, Tuple, Iterator, Gen
 
 
 def hierarchy_source(hiers: list[tuple[int, list[dict]]]) -> tuple[str, list[str]]:
-    """Classes of the generated hierarchies + a via_* function per (concrete class, ancestor, method); driver calls."""
-    from harness.C05 import render_hierarchy, py_mro
+    """Classes of the generated hierarchies + a via_* function per (concrete class, ancestor, method) and an ops_* function
+    per ancestor that applies ==, !=, bool(), truth test and -- where the ancestor declares them -- len(), in, [], hash()
+    through an ancestor-typed reference; driver calls for every concrete class."""
+    from harness.C05 import render_hierarchy, py_mro, DUNDERS
     lines: list[str] = []
     calls: list[str] = []
+    done: set[str] = set()
     for k, h in hiers:
         src, _ = render_hierarchy(k, h)
         lines += src
@@ -874,11 +911,31 @@ def hierarchy_source(hiers: list[tuple[int, list[dict]]]) -> tuple[str, list[str
                         if n != "__init__" and n not in vis:
                             vis.append(n)
                 for n in vis:
+                    if n in DUNDERS:
+                        continue
                     fn = f"via_H{k}_C{p}_{n}"
-                    if f"def {fn}(" not in "\n".join(lines):
+                    if fn not in done:
+                        done.add(fn)
                         lines.append(f"def {fn}(o: H{k}_C{p}, x: int) -> object:")
                         lines.append(f"    return o.{n}(x)")
                     calls.append(f"call('{fn}(H{k}_C{i}())', lambda: M.{fn}(M.H{k}_C{i}(), 5))")
+                fn = f"ops_H{k}_C{p}"
+                if fn not in done:
+                    done.add(fn)
+                    parts = ["'eq:' + str(o == o2)", "'ne:' + str(o != o2)", "'bool:' + str(bool(o))", "'if:' + ('T' if o else 'F')",
+                             "'not:' + str(not o)"]
+                    if "__len__" in vis:
+                        parts.append("'len:' + str(len(o))")
+                    if "__contains__" in vis:
+                        parts.append("'in:' + str(3 in o)")
+                    if "__getitem__" in vis:
+                        parts.append("'item:' + str(o[2])")
+                    if "__hash__" in vis:
+                        parts.append("'hash:' + str(hash(o))")
+                    lines.append(f"def {fn}(o: H{k}_C{p}, o2: H{k}_C{p}) -> List[str]:")
+                    lines.append("    return [" + ", ".join(parts) + "]")
+                calls.append(f"call('{fn}(H{k}_C{i}())', lambda: M.{fn}(M.H{k}_C{i}(), M.H{k}_C{i}()))")
+            calls.append(f"call('ops_py(H{k}_C{i}())', lambda: ['bool:' + str(bool(M.H{k}_C{i}())), 'eq:' + str(M.H{k}_C{i}() == M.H{k}_C{i}())])")
     return "\n".join(lines) + "\n", calls
 
 
@@ -966,7 +1023,11 @@ def make_set(rng: vlib.Rng, idx: int, hiers, nfuncs: int, hist: dict[str, int], 
         nm = f"walrus({l!r})"
         d.append(f"_l = {l!r}; call({nm!r}, lambda: M.walrus_and_friends(_l)); print('   arg after', _l)")
         ncalls += 1
-    d += ["call('raise_from', lambda: M.raise_from([]))", "call('raise_from_none', lambda: M.raise_from_none())",
+    d += ["call('opt_len_truth', lambda: [M.opt_len_truth(M.LBox(0)), M.opt_len_truth(M.LBox(2)), M.opt_len_truth(None)])",
+          "call('range_empty_keeps', lambda: [M.range_empty_keeps(0), M.range_empty_keeps(3)])",
+          "call('trait_slot_bool', lambda: bool(M.TImpl()))", "call('trait_slot_len', lambda: len(M.TImpl()))",
+          "call('bool_via_base', lambda: M.bool_via_base(M.TImpl()))",
+          "call('raise_from', lambda: M.raise_from([]))", "call('raise_from_none', lambda: M.raise_from_none())",
           "call('ord_at_in', lambda: M.ord_at('ab', 1))", "call('ord_at_out', lambda: M.ord_at('ab', 5))",
           "call('kw from interpreted', lambda: M.kw(1, 2, 3, c=4, zz=5))", "call('kw **', lambda: M.kw(*[1, 2], **{'c': 3, 'q': 4}))",
           "call('posonly', lambda: M.posonly(1, 2, 3, d=4))", "call('defaults', lambda: M.Shape(5).describe())",
@@ -976,7 +1037,7 @@ def make_set(rng: vlib.Rng, idx: int, hiers, nfuncs: int, hist: dict[str, int], 
           "sq = M.Square(3); sq.tag = 'direct'; call('attr', lambda: (sq.tag, sq.area, sq.w, sq.describe()))",
           "call('callback', lambda: M.make_counter(5)(6))", "g = M.gen_count(3); call('gen from driver', lambda: [next(g), g.send(1), list(g)])",
           "call('exc attrs', lambda: M.MyErr(3).code)", "call('isinstance', lambda: [isinstance(M.Robot(), M.Named), isinstance(B.Cube(1), M.Shape), issubclass(M.MyErr, Exception)])"]
-    ncalls += 16
+    ncalls += 21
     return {"idx": idx, "files": {f"ma{idx}.py": ma, f"mb{idx}.py": mb}, "driver": "\n".join(d) + "\n", "ncalls": ncalls,
             "nfuncs": nfuncs + ma.count("\ndef ") + mb.count("\ndef ") + ma.count("\n    def ") + mb.count("\n    def ")}
 
@@ -1103,6 +1164,11 @@ _TOK = re.compile(r"[A-Za-z_][A-Za-z_0-9]*|-?\d+|\S")
 
 # named constructs: (probe function, regex on the interpreted payload, regex on the compiled payload) -> key
 CONSTRUCTS = [
+    ("opt_len_truth", r"^\['falsy'", r"^\['truthy'", "optional-truthiness-ignores-len"),
+    ("range_empty_keeps", r"^\[99,", r"^\[0,", "for-range-empty-clobbers-variable"),
+    ("trait_slot_bool", r"False", r"True", "trait-dunder-not-in-type-slot"),
+    ("trait_slot_len", r"^0", r"TypeError", "trait-dunder-not-in-type-slot"),
+    ("bool_via_base", r"False", r"True", "trait-dunder-not-in-type-slot"),
     ("raise_from", r"cause=KeyError suppress=True log=\['cause evaluated'\]", r"cause=NoneType suppress=False log=\[\]", "raise-from-cause-dropped"),
     ("raise_from_none", r"cause=NoneType suppress=True", r"cause=NoneType suppress=False", "raise-from-cause-dropped"),
 ]
@@ -1136,6 +1202,17 @@ def classify(x: str, y: str) -> str | None:
     if re.fullmatch(r"f\d+_\d+", probe):
         return None                      # a randomly generated function: keyed by its source (caller)
     probe = re.sub(r"^via_H\d+_C\d+_\w+$", "vtable-dispatch", probe)
+    if re.fullmatch(r"ops_(H\d+_C\d+|py)", probe):
+        # operator dispatch through an ancestor-typed reference: key = the first operator whose result differs
+        try:
+            import ast
+            a, b = ast.literal_eval(mx.group(4)), ast.literal_eval(my.group(4))
+            for u, v in zip(a, b):
+                if u != v:
+                    return "dunder-dispatch:" + ("slot:" if probe == "ops_py" else "") + u.split(":")[0]
+        except Exception:  # noqa
+            pass
+        return "dunder-dispatch:" + mx.group(1).strip() + "/" + my.group(1).strip()
     for p, ri, rc, key in CONSTRUCTS:
         if probe == p and re.search(ri, mx.group(4)) and re.search(rc, my.group(4)):
             return key
